@@ -35,7 +35,10 @@ def dir_derivative(f, ladder=(1e-3, 1e-4, 1e-5, 1e-2, 1e-6), good=1e-10, scale_f
         if not (np.all(np.isfinite(D1)) and np.all(np.isfinite(D2))):
             tried.append((h, "nonfinite"))
             continue
-        err = np.abs(D2 - D1)
+        # Richardson difference + the round-off of the function evaluations amplified by 1/h (the Richardson difference of
+        # a noise-dominated rung can be small by chance and would otherwise win the selection)
+        mag = np.maximum(np.abs(cache[0.5 * h]), np.abs(cache[-0.5 * h]))
+        err = np.abs(D2 - D1) + 16.0 * np.finfo(float).eps * mag / (0.5 * h)
         sc = max(float(np.max(np.abs(D2))) if D2.size else 0.0, scale_floor)
         score = float(np.max(err)) / sc if D2.size else 0.0
         tried.append((h, score))
